@@ -151,6 +151,15 @@ def csys(name):
         elif name == "herm_noid":
             r = np.sqrt(2)
             c = qobj.csys("qubit", (0,), lambda: MatrixBasis([(_I + _Z) / r, _X / r, _Y / r, (_I - _Z) / r]))
+        elif name == "herm_xfirst":
+            r = np.sqrt(2)
+            from quara.objects.matrix_basis import SparseMatrixBasis      # both basis classes carry their own is_0thpropI
+            c = qobj.csys("qubit", (0,), lambda: SparseMatrixBasis([_X / r, _I / r, _Y / r, _Z / r]))
+        elif name == "gm_l1first":
+            from quara.objects.matrix_basis import SparseMatrixBasis
+            from quara.objects import matrix_basis as mb
+            gm = [np.array(b.toarray() if hasattr(b, "toarray") else b, dtype=np.complex128) for b in mb.get_normalized_gell_mann_basis()]
+            c = qobj.csys("qutrit", (0,), lambda: SparseMatrixBasis([gm[1], gm[0]] + gm[2:]))
         elif name == "mixed_2qubit":
             # two subsystems with DIFFERENT kinds of basis: normalised Pauli x Hermitian orthonormal, not identity-first
             from quara.objects.composite_system import CompositeSystem
@@ -173,7 +182,7 @@ def is_onh0(B):
                 and np.allclose(B[0], B[0][0, 0] * np.eye(d), atol=1e-12))
 
 
-GENERIC = ("pauli_unnorm", "herm_noid", "mixed_2qubit")
+GENERIC = ("pauli_unnorm", "herm_noid", "herm_xfirst", "gm_l1first", "mixed_2qubit")
 
 
 def coeffs(B, mat):
@@ -257,10 +266,13 @@ def gen_objects(ctx, g, volume=1):
             c, B = csys(bname)
             d = c.dim
             onh0 = is_onh0(B)
+            extra = bname in ("herm_xfirst", "gm_l1first")      # added for the basis flag: gates matter, keep the state grid small
+            if extra and ctx.quick and atol not in (ATOLS[0], ATOLS[3]):
+                continue
             for _ in range(reps):
                 # ---- states: (trace defect, minimum eigenvalue) grid incl. boundary (pure / rank deficient)
                 for dt in sizes(atol):
-                    for mu, rank in ((None, None), (0.0, 1), (0.0, max(1, d - 1)), (atol / 10, None), (-atol / 10, None),
+                    for mu, rank in ((None, None), (-10 * atol, None)) if extra else ((None, None), (0.0, 1), (0.0, max(1, d - 1)), (atol / 10, None), (-atol / 10, None),
                                      (-10 * atol, None), (-0.2, None)):
                         sgn = -1.0 if (g.random() < 0.3 and mu is None) else 1.0
                         lam = spectrum(g, d, mu if rank is None else None, 1.0 + sgn * dt, rank)
@@ -711,7 +723,9 @@ def check_origin(ctx, bname, m, g):
         "gate": [("physical", phys["gate"]), ("random", Gate(c, qobj.dyadic(g, (n, n), 6, 1.0) + 0.25, **kw)),
                  ("gradient", phys["gate"].calc_gradient(1)), ("zero", phys["gate"].generate_zero_obj())],
         "mprocess": [("physical", phys["mprocess"]), ("random", MProcess(c, [qobj.dyadic(g, (n, n), 6, 1.0) + 0.25 for _ in range(m)], **kw)),
-                     ("gradient", phys["mprocess"].calc_gradient(1)), ("zero", phys["mprocess"].generate_zero_obj())],
+                     ("gradient", phys["mprocess"].calc_gradient(1)), ("zero", phys["mprocess"].generate_zero_obj()),
+                     ("shape=(2,m)", MProcess(c, [h / 2 for h in phys["mprocess"].hss] * 2, shape=(2, m))),
+                     ("shape=(m,2)", MProcess(c, [h / 2 for h in phys["mprocess"].hss] * 2, shape=(m, 2)))],
     }
     for ty, srcs in sources.items():
         if ty == "state":
@@ -721,9 +735,11 @@ def check_origin(ctx, bname, m, g):
         else:
             dep = hs_generic(B, lambda x: np.trace(x) * np.eye(d) / d).real
             want = dep.flatten() if ty == "gate" else np.hstack([dep.flatten() / m] * m)
+        want1 = want
         for sname, o in srcs:
             rep = {"kind": "origin", "type": ty, "basis": bname, "m": m, "source": sname}
-            sfx = "" if sname == "physical" else "/from-nonphysical-source"
+            sfx = "" if sname == "physical" else ("/multi-axis-shape" if sname.startswith("shape") else "/from-nonphysical-source")
+            want = np.hstack([dep.flatten() / (2 * m)] * (2 * m)) if sname.startswith("shape") else want1
             ctx.case(("origin", ty, bname, m, sname), nontrivial=True)
             try:
                 before = np.array(o.to_stacked_vector(), dtype=np.float64).copy()
@@ -742,6 +758,68 @@ def check_origin(ctx, bname, m, g):
                 ctx.violate(f"C01/{CLSNAME[ty]}.generate_zero_obj/nonzero" + sfx, f"{bname} m={m} source={sname}: zero object is not the zero operator", rep)
             if not np.array_equal(before, np.asarray(o.to_stacked_vector())):
                 ctx.violate(f"C01/{CLSNAME[ty]}.generate_origin_obj/mutates-source", f"{bname} m={m} source={sname}", rep)
+
+
+def check_constructor_variants(ctx):
+    """construction with physicality required raises exactly for non-physical objects (default atol), whatever the other
+    keyword arguments are and through every construction entry point (constructor, convert_var_to_*, generate_from_var)"""
+    from quara.objects import state as S_, povm as P_, gate as G_
+    g = ctx.npgen(5)
+    a0 = Settings.get_atol()
+    variants = [("default", {}), ("eps_proj_physical=1e-3", {"eps_proj_physical": 1e-3}),
+                ("eps_proj_physical=1e-3,flag=off", {"eps_proj_physical": 1e-3, "on_para_eq_constraint": False})]
+    for bname in ("1qubit", "qutrit"):
+        c, B = csys(bname)
+        d = c.dim
+        cases = []
+        for viol in (0.0, 1e-4):          # between the default atol and eps_proj_physical (and above the 1e-5 slack of D1)
+            for kind in ("eq", "ineq"):
+                if viol == 0.0 and kind == "ineq":
+                    continue
+                mu = -viol if kind == "ineq" else None
+                dt = viol if kind == "eq" else 0.0
+                rho = herm_with_spectrum(g, spectrum(g, d, mu, 1.0 + dt))
+                cases.append(("state", coeffs(B, rho), None, viol, kind))
+                es = qobj.rand_povm_mats(g, d, 3)
+                if mu is not None:
+                    w, v = np.linalg.eigh(es[0]); sh = (w[0] - mu) * np.outer(v[:, 0], v[:, 0].conj()); es = [es[0] - sh, es[1] + sh, es[2]]
+                es[-1] = es[-1] + dt * np.eye(d)
+                cases.append(("povm", [coeffs(B, e) for e in es], 3, viol, kind))
+                hs = gate_hs(g, B, d, mu).copy(); hs[0, 1] += dt
+                cases.append(("gate", hs, None, viol, kind))
+                hss = [0.5 * gate_hs(g, B, d, mu), 0.5 * gate_hs(g, B, d, None)]; hss[1] = hss[1].copy(); hss[1][0, 1] += dt
+                cases.append(("mprocess", hss, 2, viol, kind))
+        for ty, arr, m, viol, kind in cases:
+            o = dict(type=ty, basis=bname, atol=a0, c=c, B=B, onh0=True, arr=arr, m=m, design=dict(viol=viol, kind=kind))
+            obj = build(o)
+            want_raise = viol > 0
+            for vname, kw in variants:
+                entries = [("constructor", lambda kw=kw: {"state": State, "povm": Povm, "gate": Gate, "mprocess": MProcess}[ty](
+                    c, (np.array(arr) if ty in ("state", "gate") else [np.array(a) for a in arr]), is_physicality_required=True, **kw))]
+                flag = kw.get("on_para_eq_constraint", True)
+                if viol == 0.0 or not flag or kind == "ineq":      # the flag-on parametrisation removes an equality violation by construction
+                    tmpl = {"state": State, "povm": Povm, "gate": Gate, "mprocess": MProcess}[ty](
+                        c, (np.array(arr) if ty in ("state", "gate") else [np.array(a) for a in arr]), is_physicality_required=False,
+                        on_para_eq_constraint=flag)
+                    v = tmpl.to_var()
+                    gkw = {k: x for k, x in kw.items() if k != "on_para_eq_constraint"}
+                    entries.append(("generate_from_var", lambda tmpl=tmpl, v=v, gkw=gkw: tmpl.generate_from_var(v, is_physicality_required=True, **gkw)))
+                    conv = {"state": S_.convert_var_to_state, "povm": P_.convert_var_to_povm, "gate": G_.convert_var_to_gate}.get(ty)
+                    if conv is not None:
+                        entries.append(("convert_var_to", lambda conv=conv, v=v, flag=flag, gkw=gkw: conv(c, v, is_physicality_required=True,
+                                                                                                       on_para_eq_constraint=flag, **gkw)))
+                for ename, fn in entries:
+                    ctx.case(("ctor-variant", bname, ty, viol, kind, vname, ename), nontrivial=True)
+                    rep = dict(rep_of(o, a0), kind="ctor-variant")
+                    try:
+                        fn(); raised = False
+                    except ValueError as e:
+                        raised = "not physically correct" in str(e)
+                        if not raised:
+                            ctx.violate(f"C01/{CLSNAME[ty]}.{ename}/other-error", f"{bname} {vname}: {e}", rep); continue
+                    if raised != want_raise:
+                        ctx.violate(f"C01/{CLSNAME[ty]}.{ename}/{'accepts-nonphysical' if want_raise else 'rejects-physical'}/kwargs",
+                                    f"{bname} {kind}-violation {viol:g} at default atol {a0:g}, {vname}: raised={raised}", rep)
 
 
 def check_bases(ctx):
@@ -767,6 +845,7 @@ def check_bases(ctx):
 
 def oracle(ctx, volume=1):
     check_bases(ctx)
+    check_constructor_variants(ctx)
     g = ctx.npgen(2)
     k = 0
     for o in gen_objects(ctx, g, volume):
@@ -804,6 +883,8 @@ def replay(ctx, data):
         check_origin(ctx, r["basis"], r["m"], ctx.npgen(3))
     elif r["kind"] == "basis":
         check_bases(ctx)
+    elif r["kind"] == "ctor-variant":
+        check_constructor_variants(ctx)
     else:
         check_settings(ctx)
     for v in ctx.violations[before:]:
